@@ -53,6 +53,12 @@ func c01Corpus() []c01issCase {
 			Faults: map[string]int{"0:IssueEnd:": c01fPanic}, Class: "generic"},
 		{Threads: []c01issThread{{Prog: "renew", Name: c01nmCanon, Async: true}, th("manage", c01nmCanon)}, Seeds: []c01issSeed{{c01nmCanon, "due"}}, Policy: "seq", Pause: map[string]string{"0": "IssueEnd:"},
 			Faults: map[string]int{"0:IssueEnd:": c01fErr}, Class: "generic"},
+		// a waiter is cancelled while the leader is inside the issuer; the other waiter takes its turn and finds the certificate
+		{Threads: []c01issThread{th("obtain", c01nmCanon), th("obtain", c01nmCanon), th("manage", c01nmCanon)}, Policy: "seq", Pause: map[string]string{"0": "IssueEnd:"},
+			CancelWait: map[string]int{"1": 0}, Class: "generic"},
+		// the leader fails in the issuer, one waiter is cancelled, the last one issues
+		{Threads: []c01issThread{th("renew", c01nmCanon), {Prog: "renew", Name: c01nmCanon, Async: true}, th("renew", c01nmCanon)}, Seeds: []c01issSeed{{c01nmCanon, "due"}}, Policy: "seq",
+			Pause: map[string]string{"0": "IssueEnd:"}, Faults: map[string]int{"0:IssueEnd:": c01fErr}, CancelWait: map[string]int{"1": 2}, Class: "generic"},
 	}
 }
 
@@ -66,7 +72,7 @@ func c01Emit(w *emit.Writer, cs c01issCase, o *c01issObs) {
 	rec := cs
 	rec.Policy, rec.Script = "script", o.Sched
 	nt := len(cs.Threads) >= 2 && o.Issues >= 1
-	key := fmt.Sprint(c01issProgKey(cs), cs.Seeds, o.Sched, cs.Faults)
+	key := fmt.Sprint(c01issProgKey(cs), cs.Seeds, o.Sched, cs.Faults, cs.CancelWait)
 	if cs.Class == "generic" {
 		d := c01Features(cs, o)
 		d["clause"] = "all"
@@ -85,6 +91,11 @@ func c01Emit(w *emit.Writer, cs c01issCase, o *c01issObs) {
 	w.Hist(fmt.Sprintf("threads=%d", len(cs.Threads)))
 	w.Hist("policy=" + cs.Policy)
 	w.Hist(fmt.Sprintf("faults=%d", len(cs.Faults)))
+	for _, s := range o.Steps {
+		if s.Fault == c01fCancel && s.Op[0] == 7 {
+			w.Hist(fmt.Sprintf("cancelled_while_waiting=%v", map[bool]string{false: "planned", true: "rescue"}[o.Deadlock]))
+		}
+	}
 	w.Hist(fmt.Sprintf("issues=%d", o.Issues))
 	w.Hist(fmt.Sprintf("steps=%d0s", len(o.Steps)/10))
 	for _, s := range o.Steps {
@@ -163,6 +174,10 @@ func c01Random(r *rand.Rand, tier string) c01issCase {
 			pat := []string{"IssueStart:", "IssueEnd:", "Event:cert_obtaining", "Event:cert_obtained", "Load:.key", "Load:.crt", "Load:.json", "Exists:.crt", "Lock:", "Store:.key", "Store:.crt", "Store:.json", "Delete:.key"}
 			cs.Faults[fmt.Sprintf("%d:%s", t, pat[r.Intn(len(pat))])] = f
 		}
+	}
+	// a request is cancelled while it waits for the lock (the holder is alive)
+	if !spelling && r.Intn(5) == 0 {
+		cs.CancelWait = map[string]int{fmt.Sprint(r.Intn(nth)): r.Intn(8)}
 	}
 	// Unlock failures leave the lock held by definition (C09's excluded class); not injected here
 	return cs
